@@ -185,6 +185,11 @@ class IOManager:
         if key:
             del self.ios[key]
 
+    def del_group(self, io_group):
+        """Forget every IO of a closed model, with or without live specs"""
+        for key in [k for k in self.ios if k[0] is io_group]:
+            del self.ios[key]
+
     def restore_io(self, io_group, io_):
         # Used only by restore_state in ModelImpl
         # To add unpickled IO in self.ios
